@@ -100,7 +100,7 @@ def nontriv(case):
 
 PARTS = [
     Part("pairwise", strategy=lambda: gen_linear.linear_problem(), oracle=oracle_pairwise,
-         nontrivial=nontriv, n={"quick": 1500, "thorough": 40000}),
+         nontrivial=nontriv, n={"quick": 5000, "thorough": 40000}),
     Part("nonresolving", strategy=lambda: gen_linear.linear_problem(singular_only=True, minx_mode="nonres"),
-         oracle=oracle_pairwise, nontrivial=nontriv, n={"quick": 400, "thorough": 10000}),
+         oracle=oracle_pairwise, nontrivial=nontriv, n={"quick": 1500, "thorough": 10000}),
 ]
